@@ -28,3 +28,42 @@ ATTRIBUTE_COMBOS = [
     {"authSystem": "knb", "order": "allowFirst", "scope": "document", "id": "access.1"}, {"references": "x", "id": "x"},
     {"keywordType": "theme", "id": "k"}, {"unit": "meter", "precision": "0.1"}, {"exponent": "2", "id": "e"}, {"name": "n", "id": "n", "scope": "document"},
 ]
+
+
+# placeholders that forms, scripts and exports leave in values - several of them are also names Python itself gives a meaning to
+# (codecs, constants, format fields)
+PLACEHOLDER_WORDS = [
+    "undefined", "Undefined", " undefined ", "null", "NULL", "None", "nil", "N/A", "n/a", "#N/A", "NA", "unknown", "TBD", "-", "--", "?", "...", "[object Object]",
+    "<undefined>", "true", "false", "0", "-1", "1e309", "1_0", "+1", "０", "٣", "utf-8", "UTF-8", "latin-1", "ascii", "cp1252", "idna", "punycode", "rot13", "rot_13",
+    "base64", "hex", "zlib", "bz2", "uu", "quopri", "unicode_escape", "raw_unicode_escape", "mbcs", "oem", "utf-16", "utf-7", "{0}", "{}", "%s", "%(name)s", "${x}",
+    "{{x}}", "\\N{BULLET}", "__class__", "lambda: 0", "os.sep", "file:///etc/passwd", "C:\\data\\x.csv", "\\\\server\\share",
+]
+
+# element names of EML 2.2 and its satellite schemas that a library modelling a part of EML may or may not know (whoever uses the list
+# keeps the names the tree under test does not know)
+EML_NAMES_POSSIBLY_UNMODELLED = [
+    "spatialRaster", "spatialVector", "storedProcedure", "view", "spatialReference", "horizCoordSysName", "horizCoordSysDef", "geogCoordSys", "datum", "spheroid",
+    "primeMeridian", "unit", "projCoordSys", "projection", "parameter", "vertCoordSys", "altitudeSysDef", "altitudeDatumName", "altitudeResolution",
+    "altitudeDistanceUnits", "altitudeEncodingMethod", "depthSysDef", "depthDatumName", "depthResolution", "depthDistanceUnits", "depthEncodingMethod",
+    "georeferenceInfo", "cornerPoint", "xCoordinate", "yCoordinate", "pointInPixel", "corner", "controlPoint", "column", "row", "bilinearFit", "xIntercept",
+    "xSlope", "yIntercept", "ySlope", "horizontalAccuracy", "verticalAccuracy", "accuracyReport", "quantitativeAccuracyReport", "quantitativeAccuracyValue",
+    "quantitativeAccuracyMethod", "cellSizeXDirection", "cellSizeYDirection", "numberOfBands", "rasterOrigin", "rows", "columns", "verticals", "cellGeometry",
+    "toneGradation", "scaleFactor", "offset", "imageDescription", "illuminationElevationAngle", "illuminationAzimuthAngle", "imageOrientationAngle",
+    "imagingCondition", "imageQualityCode", "cloudCoverPercentage", "preProcessingTypeCode", "compressionGenerationQuantity", "triangulationIndicator",
+    "radiometricDataAvailability", "cameraCalibrationInformationAvailability", "filmDistortionInformationAvailability", "lensDistortionInformationAvailability",
+    "bandDescription", "sequenceIdentifier", "highWavelength", "lowWaveLength", "waveLengthUnits", "peakResponse", "geometry", "geometricObjectCount",
+    "topologyLevel", "constraint", "primaryKey", "foreignKey", "uniqueKey", "checkConstraint", "joinCondition", "notNullConstraint", "constraintName",
+    "constraintDescription", "key", "attributeReference", "entityReference", "relationshipType", "cardinality", "parentOccurences", "childOccurences",
+    "checkCondition", "referencedKey", "queryStatement", "parameters", "domainDescription", "required", "repeats", "software", "implementation",
+    "distribution", "size", "language", "LanguageValue", "LanguageCodeStandard", "operatingSystem", "machineProcessor", "virtualMachine", "diskUsage",
+    "runtimeMemoryUsage", "programmingLanguage", "checksum", "dependency", "action", "version", "project", "license", "licenseURL", "protocol", "proceduralStep",
+    "researchProtocol", "article", "book", "chapter", "editedBook", "manuscript", "report", "thesis", "conferenceProceedings", "personalCommunication", "map",
+    "generic", "audioVisual", "presentation", "journal", "volume", "issue", "pageRange", "publisher", "publicationPlace", "ISSN", "ISBN", "edition",
+    "totalPages", "totalFigures", "totalTables", "numberOfVolumes", "editor", "bookTitle", "chapterNumber", "institution", "reportNumber", "degree",
+    "conferenceName", "conferenceDate", "conferenceLocation", "communicationType", "recipient", "geographicCoverage", "scale", "referenceType", "originalPublication",
+    "reprintEdition", "reviewedItem", "performer", "publicationDate", "contactReference", "bibtex", "access", "allow", "deny", "principal", "permission",
+    "stmml:unitList", "stmml:unit", "unitList", "unitType", "dimension", "description", "annotations", "annotation", "propertyURI", "valueURI",
+    "referencePublication", "usageCitation", "literatureCited", "fundingAgency", "award", "funderName", "funderIdentifier", "awardNumber", "awardUrl",
+    "taxonId", "id", "markdown", "section", "ulink", "citetitle", "itemizedlist", "orderedlist", "listitem", "emphasis", "literalLayout", "subscript", "superscript",
+    "dataSource", "instrumentation", "sampling", "studyExtent", "samplingDescription", "spatialSamplingUnits", "referencedEntityId", "coverageReference",
+]
